@@ -73,8 +73,8 @@ func cases(run *vf.Run) ([]json.RawMessage, error) {
 	nHist, ops := 24, 50
 	scns, stages, parts, sample, double := 2, 5, 8, 40, 0
 	if run.Tier == "thorough" {
-		nHist, ops = 240, 80
-		scns, stages, parts, sample, double = 4, 7, 16, 0, 4
+		nHist, ops = 120, 80
+		scns, stages, parts, sample, double = 4, 6, 16, 0, 2
 	}
 	// demonstration history for F4 (pinned first)
 	{
